@@ -113,13 +113,13 @@ func extract(ld *loader, file, kind, name string, isList, isInt bool) (string, e
 		if !ok {
 			return "", fmt.Errorf("initialiser is not a composite literal")
 		}
-		return intList(ld, p, f, cl, isInt)
+		return intList(p, cl, isInt)
 	}
 	return "", fmt.Errorf("unknown kind")
 }
 
 // intList evaluates a (possibly keyed) array/slice literal of integer constants.
-func intList(ld *loader, p *pkgInfo, f *ast.File, cl *ast.CompositeLit, isInt bool) (string, error) {
+func intList(p *pkgInfo, cl *ast.CompositeLit, isInt bool) (string, error) {
 	vals := map[int64]string{}
 	next := int64(0)
 	max := int64(-1)
@@ -127,16 +127,10 @@ func intList(ld *loader, p *pkgInfo, f *ast.File, cl *ast.CompositeLit, isInt bo
 		var ve ast.Expr = el
 		if kv, ok := el.(*ast.KeyValueExpr); ok {
 			ktv := p.info.Types[kv.Key]
-			kval := ktv.Value
-			if kval == nil {
-				// a constant of another package of the repository (e.g. `ai.TopFlat` as a key of an
-				// `ai.Weights` literal): imports are not type-checked, so resolve `pkg.Name` by hand
-				kval = importedConst(ld, f, kv.Key)
-			}
-			if kval == nil {
+			if ktv.Value == nil {
 				return "", fmt.Errorf("non-constant key")
 			}
-			k, ok := constant.Int64Val(constant.ToInt(kval))
+			k, ok := constant.Int64Val(constant.ToInt(ktv.Value))
 			if !ok {
 				return "", fmt.Errorf("bad key")
 			}
@@ -169,40 +163,6 @@ func intList(ld *loader, p *pkgInfo, f *ast.File, cl *ast.CompositeLit, isInt bo
 		}
 	}
 	return "[" + strings.Join(parts, ", ") + "]", nil
-}
-
-// importedConst evaluates `pkg.Name` where pkg is imported from this repository's module.
-func importedConst(ld *loader, f *ast.File, e ast.Expr) constant.Value {
-	sel, ok := e.(*ast.SelectorExpr)
-	if !ok {
-		return nil
-	}
-	x, ok := sel.X.(*ast.Ident)
-	if !ok {
-		return nil
-	}
-	for _, im := range f.Imports {
-		path := strings.Trim(im.Path.Value, `"`)
-		name := path
-		if i := strings.LastIndex(path, "/"); i >= 0 {
-			name = path[i+1:]
-		}
-		if im.Name != nil {
-			name = im.Name.Name
-		}
-		const module = "github.com/nelhage/taktician/"
-		if name != x.Name || !strings.HasPrefix(path, module) {
-			continue
-		}
-		q, err := ld.load(strings.TrimPrefix(path, module))
-		if err != nil || q.pkg == nil {
-			return nil
-		}
-		if c, ok := q.pkg.Scope().Lookup(sel.Sel.Name).(*types.Const); ok {
-			return c.Val()
-		}
-	}
-	return nil
 }
 
 func leanString(s string) string {
